@@ -2,11 +2,88 @@
 Core/LemmasEval.lean — small unfolding lemmas about the evaluator (Core/Eval.lean).
 -/
 import RsassModel.Core.Eval
+import RsassModel.Core.LemmasScope
 namespace Core
 
 theorem exec_nil (fuel : Nat) (cfg : Cfg) (fn : Bool) (s : Nat) (st : St) :
     exec (fuel + 1) cfg fn s [] st = .ok (none, st) := by
   simp [exec]
 
+
+/-! ### binding a prefix of already evaluated arguments -/
+
+def bindVals (h : Heap) (a : Nat) (vs : List (Name × V)) : Heap :=
+  vs.foldl (fun h b => insertLocal h a b.1 b.2) h
+
+theorem size_bindVals (a : Nat) : ∀ (vs : List (Name × V)) (h : Heap), (bindVals h a vs).size = h.size := by
+  intro vs
+  induction vs with
+  | nil => intro h; rfl
+  | cons b r ih => intro h; simp only [bindVals, List.foldl_cons] at ih ⊢; rw [ih]; simp [insertLocal, size_insertAt]
+
+theorem wf_bindVals (a : Nat) : ∀ (vs : List (Name × V)) (h : Heap), h.WF → (bindVals h a vs).WF := by
+  intro vs
+  induction vs with
+  | nil => intro h wf; exact wf
+  | cons b r ih => intro h wf; simp only [bindVals, List.foldl_cons] at ih ⊢; exact ih _ (wf_insertAt wf _ _ _)
+
+theorem getAssoc_bindVals_ne (a : Nat) (x : Name) : ∀ (vs : List (Name × V)) (h : Heap), a < h.size →
+    x ∉ vs.map (·.1) → getAssoc x (varsAt (bindVals h a vs) a) = getAssoc x (varsAt h a) := by
+  intro vs
+  induction vs with
+  | nil => intro h _ _; rfl
+  | cons b r ih =>
+    intro h ha hx
+    simp only [List.map_cons, List.mem_cons, not_or] at hx
+    simp only [bindVals, List.foldl_cons] at ih ⊢
+    rw [ih _ (by simp [insertLocal, size_insertAt, ha]) hx.2, insertLocal, varsAt_insertAt_self _ _ ha,
+      getAssoc_setAssoc_ne hx.1]
+
+theorem getAssoc_bindVals_mem (a : Nat) : ∀ (vs : List (Name × V)) (h : Heap), a < h.size →
+    (vs.map (·.1)).Nodup → ∀ b ∈ vs, getAssoc b.1 (varsAt (bindVals h a vs) a) = some b.2 := by
+  intro vs
+  induction vs with
+  | nil => intro h _ _ b hb; simp at hb
+  | cons c r ih =>
+    intro h ha hnd b hb
+    simp only [List.map_cons, List.nodup_cons] at hnd
+    have ha' : a < (insertLocal h a c.1 c.2).size := by simp [insertLocal, size_insertAt, ha]
+    simp only [List.mem_cons] at hb
+    rcases hb with rfl | hb
+    · show getAssoc b.1 (varsAt (bindVals (insertLocal h a b.1 b.2) a r) a) = some b.2
+      rw [getAssoc_bindVals_ne a b.1 r _ ha' hnd.1, insertLocal, varsAt_insertAt_self _ _ ha,
+        getAssoc_setAssoc_self]
+    · exact ih _ ha' hnd.2 b hb
+
+/-- a variable declared in scope `s` itself is what a lookup from `s` finds -/
+theorem lookup_of_declared {h : Heap} (wf : h.WF) {s : Nat} (hs : s < h.size) {x : Name} {v : V}
+    (hd : getAssoc x (varsAt h s) = some v) : lookup h s x = some v := by
+  obtain ⟨sc, hsc⟩ : ∃ sc, h[s]? = some sc := ⟨h[s], by simp [Array.getElem?_eq_getElem hs]⟩
+  unfold lookup
+  rw [chain_unfold wf hsc]
+  simp [List.findSome?_cons, hd]
+
+theorem ghostRead_of_declared {h : Heap} (wf : h.WF) {s : Nat} (hs : s < h.size) {x : Name} {v : V}
+    (hd : getAssoc x (varsAt h s) = some v) : ghostRead h s x = false := by
+  obtain ⟨sc, hsc⟩ : ∃ sc, h[s]? = some sc := ⟨h[s], by simp [Array.getElem?_eq_getElem hs]⟩
+  unfold ghostRead
+  rw [chain_unfold wf hsc]
+  simp [List.findSome?_cons, declares, hd]
+
+/-- `runBinds` over a prefix of evaluated arguments: they are inserted into the argscope,
+no expression is evaluated, then the rest of the plan runs -/
+theorem runBinds_vals_prefix (cfg : Cfg) (a : Nat) (post : List (Name × Binding)) (f : Nat) :
+    ∀ (vs : List (Name × V)) (st : St),
+      runBinds (f + vs.length) cfg a (vs.map (fun b => (b.1, Binding.val b.2)) ++ post) st =
+        runBinds f cfg a post { st with heap := bindVals st.heap a vs } := by
+  intro vs
+  induction vs with
+  | nil => intro st; rfl
+  | cons b r ih =>
+    intro st
+    simp only [List.length_cons, List.map_cons, List.cons_append]
+    rw [show f + (r.length + 1) = (f + r.length) + 1 from by omega, runBinds]
+    rw [ih]
+    rfl
 
 end Core
